@@ -146,6 +146,21 @@ def rule(tu, rec, prop="C15"):
             if not ok:
                 rec.finding("D2m", "rvalue-source-moves[%s]:%d" % (form, len(moves)),
                             "%s: %d move-construction site(s) read the rvalue source (expected one, inside the item loop)" % (fn, len(moves)), witness=fn)
+        # D2v: value category of the conversion: lvalue sources are converted by T(const U&), rvalue ranges and
+        # move_iterators by T(U&&) - one site, inside the item loop
+        if T == "dst":
+            cc = [e for e in sm.events if e.kind == "CONV_COPY"]
+            cm = [e for e in sm.events if e.kind == "CONV_MOVE"]
+            want, other, wn, on = (cm, cc, "T(U&&)", "T(const U&)") if m["rvalue"] else (cc, cm, "T(const U&)", "T(U&&)")
+            # (a segmented standard iterator may be copied block by block: several sites, each in a loop)
+            # (and the first iteration of an item loop may be peeled)
+            ok = len(want) >= 1 and not other
+            rec.ob("D2v", ok, {"cell": cell, "obligation": "every item is converted by %s" % wn,
+                               "copy_sites": len(cc), "move_sites": len(cm)})
+            if not ok:
+                rec.finding("D2v", "conversion-category[%s]:%s" % ("rvalue" if m["rvalue"] else "lvalue", form if other else "sites"),
+                            "%s: items of a%s source are converted at %d %s site(s) and %d %s site(s); expected only %s sites" % (
+                                fn, "n rvalue" if m["rvalue"] else "n lvalue", len(want), wn, len(other), on, wn), witness=fn)
         # D2d: single pass of exactly as many items as the parameter holds
         if form == "inputit":
             incs = [e for e in sm.events if e.kind == "CALL" and "operator++" in calls.demangle(e.info.get("name", ""))]
